@@ -10,6 +10,7 @@ contract is `SolverOK` (validated on every sample by the harness, not verified).
 All theorems hold for EVERY size `n`, every `num_eigvalues`, every matrix and every solver output.
 -/
 import CompmechVerif.Model.EigPostLemmas
+import CompmechVerif.Model.ConeLbLemmas
 
 namespace Compmech.EigPost.C05
 open Compmech.EigPost
@@ -145,5 +146,67 @@ example :
     subst h1 h2
     exact ⟨rfl, by decide +kernel⟩
   | c + 2 => simp at h1
+
+/-! ### `ConeCyl.lb` (Model/ConeLb.lean): the third copy of the glue — sliced matrices, uncapped request, a third attempt in
+`buckling` mode, `pos` zero rows stacked on top -/
+
+/-- every `(λ, v)` that `ConeCyl.lb` stores is `pos` zeros (the prescribed amplitudes) followed by a vector `y` that solves
+`(M + λ·A)·y = 0` in every row of the sliced pencil and vanishes on the amplitudes `remove_null_cols` removed — on all three
+paths (direct, fallback in `cayley` mode, fallback in `buckling` mode), for every size, `pos`, `num_eigvalues` and every
+solver output that meets the `eigsh` contract (`num` columns, `SolverOK`) -/
+theorem cone_lb_pairs {K : Type} [Field K] [DecidableEq K] (nred pos num : Nat) (Mc : Coo K) (Gf : Nat → Nat → K)
+    (first second third : Option (Out K K)) (oc : Out (Option K) K)
+    (hret : (coneLb nred pos num Mc first second third).2 = .ok oc)
+    (hsym : ∀ i j, Mc.toFun i j = Mc.toFun j i)
+    (hnull : ∀ i j, i < nred → i ∉ usedCols nred Mc → Gf i j = 0)
+    (hdirect : first.isSome → usedCols nred Mc = List.range nred)
+    (hcols : ∀ o, first = none → coneSrc second third = some o → o.vecs.ncols = num)
+    (hsolver : ∀ idx raw, lbSource nred true Mc first (coneSrc second third) = some (idx, raw) →
+      SolverOK Gf Mc.toFun idx raw) :
+    ∀ (c : Nat) (lam : K) (x : List K), oc.vals[c]? = some (some lam) → oc.vecs.cols[c]? = some x →
+      ∃ y, x = List.replicate pos 0 ++ y ∧ y.length = nred ∧
+        (∀ i < nred, dotFrom (fun j => Mc.toFun i j + lam * Gf i j) 0 y = 0) ∧
+        (∀ i < nred, i ∉ usedCols nred Mc → y.getD i 0 = 0) := by
+  -- the call whose output is used
+  have hsrc : ∃ o, (match first with | some o => some o | none => coneSrc second third) = some o := by
+    cases first with
+    | some o1 => exact ⟨o1, rfl⟩
+    | none =>
+      cases hs : coneSrc second third with
+      | some o => exact ⟨o, rfl⟩
+      | none =>
+        exfalso
+        unfold coneSrc at hs
+        cases second <;> cases third <;> simp_all [coneLb]
+  obtain ⟨o, ho⟩ := hsrc
+  have hc : first = none → o.vecs.ncols = num := by
+    intro hf
+    subst hf
+    exact hcols o rfl ho
+  rw [coneLb_eq_lb_then_vstack nred pos num Mc first second third o ho hc] at hret
+  cases hl : (lb nred num false true Mc first (coneSrc second third)).2 with
+  | error e => rw [hl] at hret; cases hret
+  | ok ol =>
+    rw [hl] at hret
+    simp only [Except.bind] at hret
+    cases hv : vstackZeros pos num ol.vecs with
+    | error e => rw [hv] at hret; cases hret
+    | ok e =>
+      rw [hv] at hret
+      simp only [Except.map] at hret
+      injection hret with hret
+      subst hret
+      intro c lam x hlam hx
+      obtain ⟨y, hy, hxy⟩ := vstackZeros_col pos num ol.vecs e hv c x hx
+      have := lb_pairs_aux nred num false true Mc Gf first (coneSrc second third) ol hl hsym hnull
+        (fun _ h => hdirect h) hsolver c lam y hlam hy
+      exact ⟨y, hxy, this⟩
+
+/-- which matrices form the pencil for each `combined_load_case` (0 = none): the stiffness side is `k0` plus the geometric
+matrix of the load that is held FIXED, the load side is the geometric matrix of the load that is scaled -/
+theorem cone_lb_pencil :
+    coneLbPencil 0 = some ([.k0], .kG0) ∧ coneLbPencil 1 = some ([.k0, .kG0_T], .kG0_Fc) ∧
+    coneLbPencil 2 = some ([.k0, .kG0_P], .kG0_Fc) ∧ coneLbPencil 3 = some ([.k0, .kG0_Fc], .kG0_T) :=
+  ⟨rfl, rfl, rfl, rfl⟩
 
 end Compmech.EigPost.C05
